@@ -1375,6 +1375,17 @@ class ShrinkUser(Contract):
     module = 'trashcli.put.core.candidate'
     qualname = 'Candidate.shrink_user'
 
+    raises = ()
+
+    def setup(self, V):
+        V.ctx.ghost['normpath_no_shape_fork'] = True
+        return {'self': candidate_of(V, shapes=False), 'environ': V.I.lib.environ()}
+
+    def post(self, V, a, out):
+        # C16: the message text is built after EVERY successful trash; it
+        # must exist for every HOME (no exception: checked as nothrow)
+        return [('a-text-for-every-home-directory', z3.BoolVal(out[0] == 'return'))]
+
     def apply(self, V, a):
         return Sym(V.ctx.fresh_str('shrunk'), 'str')
 
@@ -1647,4 +1658,6 @@ def leaf_vcs(S):
     S.verify(MakeCandidateDirs(), active=[MkdirP().key])
     S.verify(MakeTrashinfoData(), active=[ForFile().key] + act)
     S.verify(TryTrash(), active=[PutMove().key, PutRemoveFile().key])
+    S.verify(ShrinkUser())
+    S.verify(purge.ReadInputBody())
     return act
